@@ -317,7 +317,7 @@ class Engine:
                 items = [self.materialize(i, st) for i in v.items]
                 ty = TTuple([i.ty for i in items])
             dt = self.U.dt(ty)
-            return SVal(dt.mktup(*[i.t for i in items]), ty)
+            return SVal(dt.mktup(*[i.t for i in items]) if items else dt.mktup, ty)
         raise OutsideSubset(f"cannot materialize {v!r}")
 
     def empty_of(self, ty):
@@ -1461,7 +1461,7 @@ def _spec_implies(a, b):
     raise RuntimeError
 
 
-SPEC_BUILTINS = {"list_set": "list_set", "utf8": "utf8", "decode_utf8": "decode_utf8", "decodable": "decodable", "raised_by": "raised_by", "exc_code": "exc_code", "implies": "implies", "old": "old", "ANY": "ANY", "store": "store", "fresh_obj": "fresh_obj",
+SPEC_BUILTINS = {"val_of": "val_of", "list_set": "list_set", "utf8": "utf8", "decode_utf8": "decode_utf8", "decodable": "decodable", "raised_by": "raised_by", "exc_code": "exc_code", "implies": "implies", "old": "old", "ANY": "ANY", "store": "store", "fresh_obj": "fresh_obj",
                  "raised": "raised", "iff": "iff", "unchanged": "unchanged", "ite": "ite", "seq_index_of": "seq_index_of",
                  "distinct": "distinct", "field_unchanged_except": "field_unchanged_except", "none": "none",
                  "some": "some", "typed_empty": "typed_empty", "dom": "dom", "lookup": "lookup", "sorted_of": "sorted_of",
